@@ -269,11 +269,73 @@ def case_ogden_roxburgh(ctx, version, branch):
         ctx.equal("stress_is_documented_eta_times_base_stress", g, _eta_doc(ctx, W, Wmax, r, m, beta) * gb, tol=1e-12, box=box, rtol_replay=1e-8)
 
 
+def case_lagrange_vs_handcoded(ctx, which):
+    """the same compressible neo-Hookean law written (a) as a total-Lagrange material (second Piola-Kirchhoff stress), (b) as an
+    updated-Lagrange material (Cauchy stress) for MaterialAD and (c) hand-coded (NeoHookeCompressible): the same first
+    Piola-Kirchhoff stress for every (also non-symmetric) deformation gradient"""
+    import tensortrax.math as tm
+    from felupe.constitution import total_lagrange, updated_lagrange
+
+    F = Fvar(ctx, 3)
+    ctx.assume(det3(F) > 0.2)
+    mu, lm = ctx.var("mu", 0.1, 5), ctx.var("lmbda", 0.1, 5)
+    if which == "total":
+
+        @total_lagrange
+        def mat(F, mu, lmbda):
+            C = F.T @ F
+            J = tm.linalg.det(F)
+            iC = tm.linalg.inv(C)
+            return mu * (tm.base.eye(C) - iC) + lmbda * tm.log(J) * iC
+
+    else:
+
+        @updated_lagrange
+        def mat(F, mu, lmbda):
+            b = F @ F.T
+            J = tm.linalg.det(F)
+            return (mu * (b - tm.base.eye(b)) + lmbda * tm.log(J) * tm.base.eye(b)) / J
+
+    P_ad = np.asarray(fem.MaterialAD(mat, mu=mu, lmbda=lm).gradient([q(F), None])[0])[:, :, 0, 0]
+    P_hand = np.asarray(fem.NeoHookeCompressible(mu=mu, lmbda=lm).gradient([q(F), None])[0])[:, :, 0, 0]
+    ctx.equal("lagrange_wrapper_stress_equals_handcoded_stress", P_ad, P_hand, tol=1e-9, box={"atom:log": (-2, 2)}, rtol_replay=1e-7)
+
+
+def case_compressible_vs_energy(ctx, model):
+    """hand-coded NeoHookeCompressible / LinearElasticLargeStrain: stress and elasticity tensor are the first and second derivative
+    of the DOCUMENTED strain energy mu/2 (tr C - 3) - mu ln J + lmbda/2 (ln J)^2 (written here independently)"""
+    F = Fvar(ctx, 3)
+    ctx.assume(det3(F) > 0.2)
+    if model == "NeoHookeCompressible":
+        mu, lm = ctx.var("mu", 0.1, 5), ctx.var("lmbda", 0.1, 5)
+        mat = fem.NeoHookeCompressible(mu=mu, lmbda=lm)
+    else:
+        E, nu = ctx.var("E", 0.5, 5), ctx.var("nu", 0.05, 0.45)
+        mat = fem.LinearElasticLargeStrain(E=E, nu=nu)
+        mu, lm = E / (2 * (1 + nu)), E * nu / ((1 + nu) * (1 - 2 * nu))
+
+    def energy(X):
+        J = det3(X)
+        trC = sum(X[i, j] * X[i, j] for i in range(3) for j in range(3))
+        lnJ = np.log(np.array([J], dtype=object if ctx.sym else float))[0]
+        return np.asarray(mu / 2 * (trC - 3) - mu * lnJ + lm / 2 * lnJ * lnJ).reshape(())
+
+    box = {"atom:log": (-2, 2)}
+    P = np.asarray(mat.gradient([q(F), None])[0])[:, :, 0, 0]
+    ctx.equal("stress_is_derivative_of_documented_energy", P, ctx.jacobian(energy, F), tol=1e-9, box=box, rtol_replay=1e-6)
+    A = np.asarray(mat.hessian([q(F), None])[0])[:, :, :, :, 0, 0]
+    ctx.equal("elasticity_is_derivative_of_stress", A, ctx.jacobian(lambda X: np.asarray(mat.gradient([q(X), None])[0])[:, :, 0, 0], F), tol=1e-9, box=box, rtol_replay=1e-5)
+
+
 def cases(tier):
     out = []
     for mname in JAX_PAIRS:
         out.append(("jax_vs_tt", case_jax_vs_tt, {"model": mname}))
     out.append(("neo_hooke_hand_vs_ad", case_neo_hooke_hand_vs_ad, {}))
+    for which in ("total", "updated"):
+        out.append(("lagrange_vs_handcoded", case_lagrange_vs_handcoded, {"which": which}))
+    for mname in ("NeoHookeCompressible", "LinearElasticLargeStrain"):
+        out.append(("compressible_vs_energy", case_compressible_vs_energy, {"model": mname}))
     out.append(("linear_elastic", case_linear_elastic, {}))
     for version in ("handcoded", "tensortrax"):
         for br in ("unloading", "primary"):
